@@ -25,7 +25,10 @@ RULE = ('one case = one shape (a circle, a list of circles, or a convex 3..8-gon
         'positions on and around the shape handed to sky_within(degin=True) as python ints, lists of ints, int32/int64 '
         'arrays and numpy integer scalars (must equal the float spelling and obey the same geometric oracle); a '
         '"build" case = 2..4 successive add_circles/add_poly calls on one Region (nested in both orders, partially '
-        'overlapping, disjoint) whose get_area is read BEFORE any query and again after one; an evaluation is one '
+        'overlapping, disjoint, single and vector add_circles) whose get_area is read BEFORE any query and again after '
+        'one, and the same kind of build with a query (sky_within scalar / list / vector, get_demoted, get_area) between '
+        'the steps after which every shape added so far is judged again; the depth argument of add_circles and '
+        'add_poly is driven below, equal to and above maxdepth; an evaluation is one '
         'probe judged through one sky_within call, or one stored pixel examined; non-trivial = the probe is farther than '
         '1e-9 rad from the boundary it is judged against (must-be-inside or must-be-outside); distinct = unique probe '
         'coordinates within a case, cases with equal hash counted once')
@@ -59,7 +62,8 @@ MIN_COUNTERS = {'circle_probe_inside_judged': 2000, 'circle_probe_far_judged': 2
                 'shapes_at_pole': 2, 'shapes_across_ra0': 2, 'nonfinite_probes': 10,
                 'integer_probe_inside_judged': 300, 'integer_probe_far_judged': 300, 'integer_spellings_compared': 2000,
                 'integer_radian_spellings_compared': 2000, 'integer_radian_probe_inside_judged': 100, 'integer_constructor_calls': 10,
-                'builds_area_before_query': 30, 'builds_with_overlap': 15, 'build_probe_inside_judged': 2000}
+                'builds_area_before_query': 30, 'builds_with_interleaved_queries': 40, 'build_interleaved_queries': 60,
+                'build_vector_add_circles': 10, 'add_poly_with_depth_argument': 50, 'builds_with_overlap': 15, 'build_probe_inside_judged': 2000}
 
 EPS_RAD = 1e-9                      # undetermined band around a boundary (statement: DESIGN C09 'O')
 EPS_DEG = math.degrees(EPS_RAD)
@@ -158,6 +162,67 @@ def cases(seed, tier):
                 steps.append(st)
             out.append({'kind': 'build', 'maxdepth': md, 'depth': None, 'steps': steps, 'n': 1200,
                         'seed': ['t', 'build', i, polymask]})
+    # the same targeted builds with a query between the steps (the cache is built, then more is added)
+    for i, (md, circ) in enumerate(tb):
+        for j, q in enumerate(QUERIES):
+            steps = [{'ra': ra, 'dec': dec, 'r': r, 'rel': 'targeted', 'op': 'circle'} for (ra, dec, r) in circ]
+            if (i + j) % 2:
+                steps[-1].update(op='poly', angles=[5.0, 65.0, 130.0, 190.0, 250.0, 310.0], orient=1)
+            if j % 2 == 0:
+                steps[-1 if steps[-1]['op'] == 'circle' else 0]['extra'] = [
+                    [circ[0][0] + 3 * circ[0][2], circ[0][1], circ[0][2] * 0.5],
+                    [circ[0][0], circ[0][1] - 2.5 * circ[0][2], circ[0][2] * 0.7]]
+            out.append({'kind': 'build', 'maxdepth': md, 'depth': None, 'steps': steps, 'n': 1000,
+                        'queries': [q] * (len(steps) - 1) + ['none'], 'seed': ['t', 'build-q', i, q]})
+    # explicit depth argument of add_poly (below, equal to, above maxdepth)
+    for i, (md, dp) in enumerate(((10, 7), (8, 8), (9, 12), (11, 6), (6, 5), (11, 9), (7, 3), (5, 9))):
+        for orient in (1, -1):
+            out.append({'kind': 'poly', 'maxdepth': md, 'depth': dp, 'ra': math.radians(40.0 + 31 * i),
+                        'dec': math.radians(-50.0 + 17 * i), 'R': math.radians(3.0),
+                        'angles': [0.0, 50.0, 115.0, 180.0, 250.0, 300.0], 'orient': orient, 'n': 2000,
+                        'seed': ['t', 'polydepth', md, dp, orient]})
+    rdep = rng_for(seed, 'c09-depth-argument', tier)
+    for i in range(150 if tier == 'quick' else 2500):
+        R = 10 ** rdep.uniform(-1.0, math.log10(40))
+        u = rdep.random()
+        ok_eff = [d for d in range(3, 13) if R / resol_deg(d) <= 120]
+        eff = int(rdep.choice(ok_eff))
+        ncoarse = max(9.0, 1.3 * math.pi * (R / resol_deg(eff)) ** 2)      # coarse pixels, each 4**(md-dp) deepest ones
+        deeper_ok = [m for m in range(eff + 1, 13) if ncoarse * 4 ** (m - eff) <= 250000]
+        if u < 0.7 and deeper_ok:
+            md, dp = int(rdep.choice(deeper_ok)), eff                    # coarser than the region
+        elif u < 0.85:
+            md, dp = eff, eff + int(rdep.integers(1, 5))                # deeper: clamped to maxdepth
+        else:
+            md, dp = eff, eff
+        ra = float(rdep.choice([rdep.uniform(0, 360), 0.0, 359.99]))
+        dec = float(np.clip(rdep.choice([math.degrees(math.asin(rdep.uniform(-1, 1))), 90 - R * 0.5, -90 + R * 0.5]),
+                            -89.999, 89.999))
+        if i % 3 == 0:
+            out.append({'kind': 'circle', 'maxdepth': md, 'depth': dp, 'ra': math.radians(ra), 'dec': math.radians(dec),
+                        'r': math.radians(R), 'style': str(rdep.choice(['scalar', 'list', 'array'])), 'n': 1500,
+                        'seed': [seed, 'depth-circle', i]})
+        else:
+            out.append({'kind': 'poly', 'maxdepth': md, 'depth': dp, 'ra': math.radians(ra), 'dec': math.radians(dec),
+                        'R': math.radians(R), 'angles': _angles(rdep, int(rdep.integers(3, 9))),
+                        'orient': int(rdep.choice([1, -1])), 'n': 1500, 'seed': [seed, 'depth-poly', i]})
+    rq = rng_for(seed, 'c09-builds-interleaved', tier)
+    for i in range(90 if tier == 'quick' else 1500):
+        md = int(rq.integers(8, 12))
+        steps = _gen_build(rq, md)
+        for st in steps:
+            if st['op'] == 'circle' and rq.random() < 0.3:
+                st['extra'] = [[float(x) for x in (*sphere.destination(st['ra'], st['dec'], st['r'] * rq.uniform(0.5, 3),
+                                                                       rq.uniform(0, 360)), st['r'] * rq.uniform(0.3, 1))]
+                               for _ in range(int(rq.integers(1, 3)))]
+                for e in st['extra']:
+                    e[0] = e[0] % 360.0
+                    e[1] = float(np.clip(e[1], -89.5, 89.5))
+        qs = [str(rq.choice(QUERIES + ('none',))) for _ in steps]
+        qs[int(rq.integers(0, len(steps) - 1))] = str(rq.choice(TOUCHING))       # at least one query builds the cache
+        qs[-1] = 'none'
+        out.append({'kind': 'build', 'maxdepth': md, 'depth': None, 'steps': steps, 'queries': qs, 'n': 1000,
+                    'seed': [seed, 'build-q', i]})
     # ---- seeded random sample
     rng = rng_for(seed, 'c09-cases', tier)
     for i in range(90 if tier == 'quick' else 1500):
@@ -641,11 +706,81 @@ def _gen_build(rng, md):
     return steps
 
 
+TOUCHING = ('vector', 'list', 'scalar', 'get_demoted')       # queries that make the region build / use its cache
+QUERIES = TOUCHING + ('area',)
+
+
+def _step_query(o, reg, shapes, pix, md, rng, q, k, case):
+    """a query in the middle of a build; afterwards every shape added so far must still be covered, by sky_within
+    (when the query was one) and by the stored pixels"""
+    pra, pdec = [], []
+    for sh in shapes:
+        x, y = _probes_about(rng, sh['cen'][0], sh['cen'][1], sh['R'], pix, 150)
+        pra.append(np.concatenate([[sh['cen'][0]], x]))
+        pdec.append(np.concatenate([[sh['cen'][1]], y]))
+    pra, pdec = np.concatenate(pra), np.concatenate(pdec)
+    o.see('build_interleaved_query', q)
+    res = None
+    if q == 'vector':
+        ok, res = _call(o, reg.sky_within, 'sky_within(arrays, degin=True) after step %d of a build' % k, pra, pdec, degin=True)
+    elif q == 'list':
+        ok, res = _call(o, reg.sky_within, 'sky_within(lists) after step %d of a build' % k,
+                        [float(x) for x in np.radians(pra)], [float(x) for x in np.radians(pdec)])
+    elif q == 'scalar':
+        sel = np.unique(np.concatenate([np.arange(0, len(pra), 151), rng.integers(0, len(pra), 40)]))
+        pra, pdec = pra[sel], pdec[sel]
+        out = []
+        ok = True
+        for a, d in zip(pra, pdec):
+            ok1, r1 = _call(o, reg.sky_within, 'sky_within(float, float, degin=True) after step %d of a build' % k,
+                            float(a), float(d), degin=True)
+            ok = ok and ok1
+            out.append(bool(np.asarray(r1).ravel()[0]) if ok1 else False)
+        res = np.array(out)
+    elif q == 'get_demoted':
+        ok, dem = _call(o, reg.get_demoted, 'get_demoted() after step %d of a build' % k)
+    else:
+        ok, _a = _call(o, reg.get_area, 'get_area() (extra) after step %d of a build' % k)
+    if not ok:
+        return
+    o.count('build_interleaved_queries')
+    iv = healmember.intervals(reg.pixeldict, md, ignore_deeper=True)     # read after the query
+    inner, outer, must_in, must_out, free = _classify(shapes, pra, pdec, pix)
+    model_in = healmember.member(iv, healmember.cell(pra, pdec, md))
+    summ = _shape_summary(shapes)
+
+    def extra(i):
+        return {'shapes_so_far': summ, 'after_step': k, 'query': q, 'queries': case.get('queries'),
+                'pixel_size_deg': pix, 'maxdepth': md, 'inside_margin_deg': float(inner[i]),
+                'distance_beyond_circle_deg': float(outer[i])}
+    if res is not None:
+        res = np.asarray(res)
+        o.n_eval += len(pra)
+        _judge(o, 'build', res, model_in, must_in, must_out, free, pra, pdec,
+               lambda idx: healmember.stable_cell(pra[idx], pdec[idx], md)[1], extra)
+    else:
+        o.n_eval += len(pra)
+        o.count('build_probe_inside_judged', int(must_in.sum()))
+        o.count('build_probe_far_judged', int(must_out.sum()))
+        for i in np.flatnonzero(must_in & ~model_in)[:3]:
+            o.violate('build_interior_not_in_stored_pixels', dict(extra(i), probe_deg=[pra[i], pdec[i]]))
+        for i in np.flatnonzero(must_out & model_in)[:3]:
+            o.violate('build_far_in_stored_pixels', dict(extra(i), probe_deg=[pra[i], pdec[i]]))
+
+
 def _run_build(o, reg, case, rng, md, pix):
     shapes = []
     prev_area = None
     for k, st in enumerate(case['steps']):
-        if st['op'] == 'circle':
+        if st['op'] == 'circle' and st.get('extra'):
+            # one vector call adding several circles
+            allc = [(st['ra'], st['dec'], st['r'])] + [tuple(e) for e in st['extra']]
+            ok, _ = _call(o, reg.add_circles, 'add_circles (vector of %d, step %d of a build)' % (len(allc), k),
+                          [math.radians(c[0]) for c in allc], [math.radians(c[1]) for c in allc],
+                          [math.radians(c[2]) for c in allc])
+            shapes.extend(_circle_shape(*c) for c in allc)
+            o.count('build_vector_add_circles')
+        elif st['op'] == 'circle':
             ok, _ = _call(o, reg.add_circles, 'add_circles (step %d of a build)' % k, math.radians(st['ra']),
                           math.radians(st['dec']), math.radians(st['r']))
             shapes.append(_circle_shape(st['ra'], st['dec'], st['r']))
@@ -670,6 +805,12 @@ def _run_build(o, reg, case, rng, md, pix):
             o.violate('area_vs_stored_pixels', {'step': k, 'steps': case['steps'], 'get_area_sqdeg': a,
                                                 'stored_pixels_sqdeg': want, 'maxdepth': md, 'before_any_query': True})
         prev_area = a
+        q = (case.get('queries') or ['none'] * len(case['steps']))[k]
+        if q != 'none':
+            _step_query(o, reg, shapes, pix, md, rng, q, k, case)
+    touched = any(q in TOUCHING for q in (case.get('queries') or []))
+    if touched:
+        o.count('builds_with_interleaved_queries')
     summ = _shape_summary(shapes)
     overlap = any(float(sphere.sep(a['cen'][0], a['cen'][1], b['cen'][0], b['cen'][1])) < a['R'] + b['R']
                   for i, a in enumerate(shapes) for b in shapes[i + 1:])
@@ -682,7 +823,8 @@ def _run_build(o, reg, case, rng, md, pix):
         ok, a = _call(o, reg.get_area, 'get_area(degrees=%s) before any query' % degrees, degrees=degrees)
         if ok:
             area_before[degrees] = a
-    o.count('builds_area_before_query')
+    if not touched:
+        o.count('builds_area_before_query')
     mc = _mc_union_areas(shapes, pix, rng_for(*case['seed'], 'mc'))
     if mc is not None and True in area_before:
         lo, slo, hi, shi = mc
@@ -881,6 +1023,9 @@ def _run_poly(o, reg, case, rng, md, dp, pix):
         vra, vdec = sphere.destination(ra0, dec0, np.full(len(ang), R), np.array(ang))
         positions = [[math.radians(a), math.radians(d)] for a, d in zip(vra, vdec)]
     o.see('add_poly_style', pstyle)
+    if dp is not None:
+        o.count('add_poly_with_depth_argument')
+        o.see('add_poly_depth_argument', 'coarser' if dp < md else ('equal' if dp == md else 'deeper'))
     pmech = _mech_integer({'add_poly_style': pstyle, 'units': 'radians'})
     o.see('polygon_vertices', len(ang))
     o.see('polygon_orientation', case.get('orient', 0))
